@@ -1,8 +1,11 @@
+import SignaloModel.Proofs.BridgeSimple
 import SignaloModel.Proofs.SmoothProofs
 /-!
 # C14 — Alpha-beta tracker follows its recurrence, is linear and preserves constants
 
-Property theorems for C14 (statements are printed by `#check`, axioms by `#print axioms`;
+Property theorems for C14 (statements are printed by `#check`, axioms by `#check @Registry.abRec_snoc
+#check @Registry.ab_state
+#print axioms`;
 `bin/check C14` re-elaborates this file on every run and audits the axiom lists).
 -/
 open SignaloModel
@@ -12,3 +15,5 @@ open SignaloModel
 
 #print axioms Smooth.ab_linear
 #print axioms Smooth.ab_const
+#print axioms Registry.abRec_snoc
+#print axioms Registry.ab_state
